@@ -12,8 +12,14 @@ TMAX = {"i8": 2**7 - 1, "i16": 2**15 - 1, "i32": 2**31 - 1, "i64": 2**63 - 1,
 MAX64 = 2**64 - 1
 
 
-def hx(bs):
-    return "".join("%02x" % b for b in bs) if bs else "-"
+WIDTH = {"1": 1, "2": 2, "4": 4, "w": 4}      # script tag -> sizeof(Char): char, char16_t, char32_t, wchar_t
+# elements whose low byte / low half agree, so that byte-count vs element-count confusions change the answer
+WALPHA = {"2": [0, 0x61, 0x62, 0x0161, 0x6100], "4": [0, 0x61, 0x62, 0x10061, 0x61000000],
+          "w": [0, 0x61, 0x62, 0xFFFFFF61, 0x7FFFFFFF]}
+
+
+def hx(bs, w=1):
+    return "".join("%0*x" % (2 * w, b) for b in bs) if bs else "-"
 
 
 def small_strings(maxlen=4, alpha=ALPHA):
@@ -38,6 +44,14 @@ def corpus():
     # D32: sub_string's check from + size <= _length wrapped
     cs.append(("corpus-d32-substr-wrap", ["buf 61626364", "sub P:0:0:4 1 %d" % MAX64]))
     cs.append(("corpus-d32-substr-wrap2", ["buf 61626364", "sub P:0:0:4 %d 2" % (MAX64 - 1)]))
+    # D34: allocate(sizeof(Char) * _length + 1): the terminator of a char16_t/char32_t string is written past the block
+    cs.append(("corpus-d34-wide-terminator", ["char 2", "buf 006101610062", "spl 0 0 3"]))
+    cs.append(("corpus-d34-wide-append-char", ["char 4", "snew", "sappc 0 97", "spush 0 98", "splusc 0 99"]))
+    # seeded: operator== with memcmp(_pointer, other._pointer, _length): element count used as a byte count
+    cs.append(("corpus-wide-eq-tail", ["char 2", "buf 00610062", "buf 00610063", "eq P:0:0:2 P:1:0:2", "sw P:0:0:2 P:1:0:2",
+                                       "ew P:0:0:2 P:1:1:1", "ew P:0:0:2 P:1:0:2"]))
+    cs.append(("corpus-wide-eq-tail32", ["char 4", "buf 00000061000000620000006300000064", "buf 00000061000000620000006300000065",
+                                         "eq P:0:0:4 P:1:0:4", "eq P:0:1:3 P:1:1:3", "sw P:0:0:4 P:1:0:4"]))
     # assorted
     cs.append(("corpus-self-alias", ["buf 616200", "scs 0 0", "sappv 0 S:0", "sassign 0 0", "sswap 0 0", "splusv 0 S:0", "scmp 0 1", "hs 0"]))
     cs.append(("corpus-null-views", ["eq N N", "ff N 0 0", "fl N 0", "ffo N N 0", "sub N 0 0", "sw N N", "ew N V:0", "num u8 N", "hv N",
@@ -46,11 +60,13 @@ def corpus():
     return cs
 
 
-def pair_case(cid, a, b):
-    """All binary operations on the pair (a, b); a and b sit in exact-size buffers, plus NUL-terminated copies."""
+def pair_case(cid, a, b, ct="1"):
+    """All binary operations on the pair (a, b); a and b sit in exact-size buffers, plus NUL-terminated copies.
+    ct = character type tag; compare(const char*) exists for char only."""
     la, lb = len(a), len(b)
+    w = WIDTH[ct]
     A, B = "P:0:0:%d" % la, "P:1:0:%d" % lb
-    ls = ["buf " + hx(a), "buf " + hx(b), "buf " + hx(a + [0]), "buf " + hx(b + [0]),
+    ls = ([] if ct == "1" else ["char " + ct]) + ["buf " + hx(a, w), "buf " + hx(b, w), "buf " + hx(a + [0], w), "buf " + hx(b + [0], w),
           "eq %s %s" % (A, B), "sw %s %s" % (A, B), "ew %s %s" % (A, B), "ffo %s %s 0" % (A, B),
           "spl 0 0 %d" % la, "sview %s" % B, "scmp 0 1", "scmp 1 0", "scmpc 0 3 0",
           "splusv 0 %s" % B, "ssw 2 %s" % A, "sew 2 %s" % B, "ssw 0 %s" % B, "sew 0 %s" % B,
@@ -58,22 +74,60 @@ def pair_case(cid, a, b):
           "sappv 1 %s" % A, "sassign 0 1", "scmp 0 1", "hs 0", "hv S:1", "hv %s" % A]
     if lb:
         ls += ["ffo %s %s 1" % (A, B), "sappc 0 %d" % b[0], "splusc 1 %d" % b[-1]]
+    if ct != "1":
+        ls = [l for l in ls if not l.startswith("scmpc")]
     return (cid, ls)
 
 
-def unary_cases(prefix, a):
+def wide_strings(ct, maxlen):
+    return small_strings(maxlen, WALPHA[ct])
+
+
+def wide_pairs(rng, n, ct, maxlen=3):
+    ss = wide_strings(ct, maxlen)
+    out = []
+    for i in range(n):
+        a = rng.choice(ss)
+        k = rng.random()
+        if k < 0.35 and a:          # same length, differing in one position (often the tail)
+            b = list(a); j = len(a) - 1 if rng.random() < 0.6 else rng.randrange(len(a))
+            b[j] = rng.choice([x for x in WALPHA[ct] if x != a[j]])
+        elif k < 0.55:
+            b = list(a[:rng.randrange(len(a) + 1)]) if rng.random() < 0.5 else list(a[rng.randrange(len(a) + 1):])
+        else:
+            b = rng.choice(ss)
+        out.append(pair_case("wpair%s-%d" % (ct, i), a, b, ct))
+    return out
+
+
+def wide_pairs_exhaustive(ct, maxlen=3):
+    ss = wide_strings(ct, maxlen)
+    return [pair_case("wpairx%s-%d-%d" % (ct, i, j), a, b, ct) for i, a in enumerate(ss) for j, b in enumerate(ss)]
+
+
+def wide_unary(ct, maxlen=2):
+    out = []
+    for i, a in enumerate(wide_strings(ct, maxlen)):
+        for cid, ls in unary_cases("wun%s-%d" % (ct, i), a, ct):
+            out.append((cid, ls))
+    return out
+
+
+def unary_cases(prefix, a, ct="1"):
     """Operations on one string, with every start / from / size around its length."""
     la = len(a)
+    w = WIDTH[ct]
     A = "P:0:0:%d" % la
-    base = ["buf " + hx(a), "buf " + hx(a + [0])]
+    base = ([] if ct == "1" else ["char " + ct]) + ["buf " + hx(a, w), "buf " + hx(a + [0], w)]
     ls = list(base)
-    for c in ALPHA:
+    for c in (ALPHA if ct == "1" else WALPHA[ct]):
         for st in range(la + 2):
             ls.append("ff %s %d %d" % (A, c, st))
         ls.append("fl %s %d" % (A, c))
     ls += ["hv " + A, "len 1 0", "nlen 1 0 %d" % la, "nlen 0 0 %d" % la, "nlen 1 0 %d" % (la + 1), "nlen 1 0 0"]
-    for t in TYPES:
-        ls.append("num %s %s" % (t, A))
+    if ct == "1":
+        for t in TYPES:
+            ls.append("num %s %s" % (t, A))
     for fr in range(la + 1):
         for sz in range(la - fr + 1):
             ls.append("sub %s %d %d" % (A, fr, sz))
@@ -149,15 +203,25 @@ def number_small_exhaustive(maxlen=5):
 
 class Rand:
     """Random longer scripts with a pool of buffers, strings and stored views."""
-    def __init__(self, rng):
+    def __init__(self, rng, ct="1"):
         self.rng = rng
-        self.lines = []
+        self.ct = ct
+        self.w = WIDTH[ct]
+        self.lines = [] if ct == "1" else ["char " + ct]
         self.bufs = []      # byte lists
         self.strs = []      # byte list or None (destroyed)
         self.views = []     # (safe, bytes)   safe = does not point into a string's buffer
 
     def rbytes(self, n):
         r = self.rng
+        if self.ct != "1":
+            top = (1 << (8 * self.w)) - 1
+            mode = r.choice(["alpha", "alpha", "edge", "any"])
+            if mode == "alpha":
+                return [r.choice(WALPHA[self.ct]) for _ in range(n)]
+            if mode == "edge":
+                return [r.choice([0, 1, 0x61, 0xFF, 0x100, 0x161, top, top >> 1, (top >> 1) + 1, 0x6100]) & top for _ in range(n)]
+            return [r.randrange(top + 1) for _ in range(n)]
         mode = r.choice(["small", "small", "any", "hi", "digits"])
         if mode == "small":
             return [r.choice(ALPHA) for _ in range(n)]
@@ -174,7 +238,7 @@ class Rand:
         if r.random() < 0.6:
             bs = bs + [0]
         self.bufs.append(bs)
-        self.lines.append("buf " + hx(bs))
+        self.lines.append("buf " + hx(bs, self.w))
 
     def vexp(self, allow_str=True):
         """-> (token, bytes)"""
@@ -231,6 +295,9 @@ class Rand:
                          "snew", "scs", "spl", "sview", "sfill", "scopy", "sassign", "sresize", "splusv", "splusc",
                          "sappv", "sappv", "sappc", "spush", "scmp", "scmpc", "ssw", "sew", "hs", "sdetach", "sswap", "sdel", "buf"])
         live = self.live()
+        if self.ct != "1" and kind in ("num", "scmpc"):
+            kind = "eq"
+        top = (1 << (8 * self.w)) - 1
         if kind == "buf" or not self.bufs:
             self.add_buf(); return
         if kind in ("eq", "sw", "ew"):
@@ -240,14 +307,14 @@ class Rand:
             L.append("%s %s %s" % (kind, a, b))
         elif kind == "ff":
             a, ab = self.vexp()
-            c = r.choice(ab) if ab and r.random() < 0.7 else r.randrange(256)
+            c = r.choice(ab) if ab and r.random() < 0.7 else r.randrange(top + 1)
             L.append("ff %s %d %d" % (a, c, r.choice([0, 0, 1, len(ab), len(ab) + 1, r.randrange(len(ab) + 2), MAX64])))
         elif kind == "ffo":
             a, ab = self.vexp(); b, bb = self.vexp()
             L.append("ffo %s %s %d" % (a, b, r.choice([0, 0, 1, len(ab), r.randrange(len(ab) + 2)])))
         elif kind == "fl":
             a, ab = self.vexp()
-            c = r.choice(ab) if ab and r.random() < 0.7 else r.randrange(256)
+            c = r.choice(ab) if ab and r.random() < 0.7 else r.randrange(top + 1)
             L.append("fl %s %d" % (a, c))
         elif kind == "sub":
             a, ab = self.vexp()
@@ -290,7 +357,7 @@ class Rand:
             a, ab = self.vexp()
             L.append("sview " + a); self.strs.append(list(ab))
         elif kind == "sfill":
-            n = r.choice([0, 1, 3, 17]); c = r.randrange(256)
+            n = r.choice([0, 1, 3, 17]); c = r.randrange(top + 1)
             L.append("sfill %d %d" % (n, c)); self.strs.append([c] * n)
         elif not live:
             L.append("snew"); self.strs.append([])
@@ -303,12 +370,12 @@ class Rand:
             k = r.choice(live); n = r.choice([0, 1, len(self.strs[k]), len(self.strs[k]) + 1, max(0, len(self.strs[k]) - 1), r.randrange(30)])
             L.append("sresize %d %d" % (k, n))
             s = self.strs[k]
-            self.strs[k] = (s + [0xCD] * n)[:n]
+            self.strs[k] = (s + [int('cd' * self.w, 16)] * n)[:n]
         elif kind == "splusv":
             k = r.choice(live); a, ab = self.vexp()
             L.append("splusv %d %s" % (k, a)); self.strs.append(self.strs[k] + list(ab))
         elif kind == "splusc":
-            k = r.choice(live); c = r.randrange(256)
+            k = r.choice(live); c = r.randrange(top + 1)
             L.append("splusc %d %d" % (k, c)); self.strs.append(self.strs[k] + [c])
         elif kind == "sappv":
             k = r.choice(live); a, ab = self.vexp()
@@ -316,7 +383,7 @@ class Rand:
                 a, ab = "S:%d" % k, self.strs[k]
             L.append("sappv %d %s" % (k, a)); self.strs[k] = self.strs[k] + list(ab)
         elif kind in ("sappc", "spush"):
-            k = r.choice(live); c = r.choice([0, 0x61, r.randrange(256)])
+            k = r.choice(live); c = r.choice([0, 0x61, r.randrange(top + 1)])
             L.append("%s %d %d" % (kind, k, c)); self.strs[k] = self.strs[k] + [c]
         elif kind == "scmp":
             a, b = r.choice(live), r.choice(live)
@@ -327,7 +394,7 @@ class Rand:
                 # a real prefix / suffix through a fresh exact-size buffer
                 s = self.strs[k]; cut = r.randrange(len(s) + 1)
                 bs = s[:cut] if kind == "ssw" else s[cut:]
-                self.bufs.append(list(bs)); L.append("buf " + hx(bs))
+                self.bufs.append(list(bs)); L.append("buf " + hx(bs, self.w))
                 a = "P:%d:0:%d" % (len(self.bufs) - 1, len(bs))
             L.append("%s %d %s" % (kind, k, a))
         elif kind == "hs":
@@ -345,8 +412,8 @@ class Rand:
         pass   # stored views derived from strings are never marked safe, nothing to do
 
 
-def gen_case(rng, n_ops):
-    g = Rand(rng)
+def gen_case(rng, n_ops, ct="1"):
+    g = Rand(rng, ct)
     g.add_buf(); g.add_buf()
     for _ in range(n_ops):
         g.op()
